@@ -9,6 +9,17 @@ VERIF = os.path.dirname(os.path.dirname(os.path.abspath(__file__)))
 TECH = 'Lean 4 theorems on a hand-written model + differential correspondence check + property probe'
 NOTE = 'Trusted: Lean kernel + {propext, Classical.choice, Quot.sound} (audited per theorem on every run); the hand-written model is tied to the C++ by a seeded differential test, not by proof; '
 CLAIMED = {
+    'C15': ('proof', TECH,
+            'Refinement to an abstract sliding window, for any number of axes, sizes, offsets and history lengths (unbounded, strictly '
+            'stronger than the property\'s bounded-exhaustive quantifier): translate keeps well-formedness and get after translate = '
+            'Spec.translate of get before; set changes one cell; history theorem by induction over every op sequence; reported offset = '
+            'accumulated offset mod n; no 64-bit overflow / negative size_t conversion / out-of-bounds buffer access; and the spec meets the '
+            'English statement over absolute map coordinates (a cell undisturbed since it was written reads that value, a cell brought under '
+            'the window reads the empty value of that translation). 11 theorems in RomeaProofs/Properties/C15.lean. Exact differential on op '
+            'sequences with full dumps; thorough tier enumerates the property\'s bounded space completely (18.6 M state x offset pairs, '
+            'compared through a seeded 61-bit digest).',
+            NOTE + 'the odometer visiting order of the blanking loop is represented by the set of visited cells (order is irrelevant for the result).',
+            'DESIGN.md section 6, C15'),
     'C01': ('proof', TECH,
             'Over RN (reals with absorbing NaN: every division/sqrt guard discharged) on the property\'s domain: toECEF lies on the ellipsoid '
             'normal at height h; longitude recovered for lon in (-pi, pi] (atan2, antimeridian included, -pi maps to pi); the true latitude '
